@@ -1,0 +1,28 @@
+//go:build verif
+
+// Contracts for package http (the net/http middleware), checked by /verif/govc (comment-only file; no code).
+package http
+
+// The client receives the interruption's status (C18): every disruptive action maps to its own status, 403 when
+// it carries none; anything else keeps the default.
+//@ func obtainStatusCodeFromInterruptionOrDefault props C18,C07
+//@   requires it != nil
+//@   modifies nothing
+//@   ensures disruptive: (it.Action == "deny" || it.Action == "drop" || it.Action == "redirect") ==> result == ite(it.Status != 0, it.Status, 403)
+//@   ensures other: !(it.Action == "deny" || it.Action == "drop" || it.Action == "redirect") ==> result == defaultStatusCode
+
+// reqInterrupted: whether the request phases produced an interruption (definitional ghost effect of processRequest).
+//@ ghost var reqInterrupted bool
+//@ ghost var reqFailed bool
+//@ func processRequest props C18
+//@   modifies inferred, reqInterrupted, reqFailed
+//@   ensures def_it: reqInterrupted == (result0 != nil)
+//@   ensures def_err: reqFailed == !isnil(result1)
+
+// The wrapped handler is never called for a request that was interrupted (or whose processing failed) in a request
+// phase, and then exactly the interruption's status goes to the client (C18).
+//@ func WrapHandler$3 props C18
+//@   requires freshRequest: !reqInterrupted && !reqFailed
+//@   modifies inferred, handlerCalls, headerWrites, lastStatus, reqInterrupted, reqFailed
+//@   ensures blocked: reqInterrupted && !reqFailed && handlerCalls != old(handlerCalls) ==> false
+//@   ensures atMostOnce: handlerCalls == old(handlerCalls) || handlerCalls == old(handlerCalls) + 1
